@@ -22,8 +22,28 @@ type FuncReport struct {
 	hsort       map[string]string
 }
 
-func contractParamList(k *FuncContract, fn *ssa.Function) (names []string, typs []types.Type) {
+func contractParamList(k *FuncContract, fn *ssa.Function, sigs ...*types.Signature) (names []string, typs []types.Type) {
 	if fn == nil {
+		if len(sigs) == 0 || sigs[0] == nil {
+			return
+		}
+		sig := sigs[0]
+		for i := 0; i < sig.Params().Len(); i++ {
+			p := sig.Params().At(i)
+			n := p.Name()
+			if n == "" || n == "_" {
+				n = fmt.Sprintf("p%d", i)
+			}
+			names = append(names, n)
+			typs = append(typs, p.Type())
+		}
+		if k != nil {
+			for i := range names {
+				if i < len(k.Params) {
+					names[i] = k.Params[i]
+				}
+			}
+		}
 		return
 	}
 	if len(fn.Params) > 0 {
@@ -83,6 +103,7 @@ func verifyFuncPass(P *Program, DB *ContractDB, fn *ssa.Function, k *FuncContrac
 			panic(r)
 		}
 	}()
+	vc.emit("(assert (>= " + vc.look(vc.entry, "$alloc") + " 0))")
 	vc.emitAxioms()
 	st := vc.entry.clone()
 	fr := vc.newFrame(fn, nil)
@@ -132,6 +153,9 @@ func verifyFuncPass(P *Program, DB *ContractDB, fn *ssa.Function, k *FuncContrac
 	vc.lines = vc.lines[:len(vc.lines)-1] // drop the "assume false" that oblige appended
 	vq.NLines = len(vc.lines)
 
+	if k.HasMod && !k.ModAll && !k.Flags["frame-unchecked"] {
+		vc.computeFrame(env, k)
+	}
 	ex := fr.run("true", st)
 
 	// exceptional exits (panics): deferred functions run, then either recovered or propagated
@@ -145,6 +169,10 @@ func verifyFuncPass(P *Program, DB *ContractDB, fn *ssa.Function, k *FuncContrac
 	_ = panicExit
 
 	if ex != nil {
+		ev := vc.oblige("vacuity", fmt.Sprintf("%s/%s/vacuity[exit-reachable]", prop, vc.qname), "the normal exit is reachable under the assumed contracts (must NOT be refutable)", ex.reach, "false", fn.Pos(), true)
+		ev.MustFail = true
+		vc.lines = vc.lines[:len(vc.lines)-1]
+		ev.NLines = len(vc.lines)
 		post := env.at(ex.st, nil)
 		post.old = vc.entry
 		post.results = nil
@@ -239,58 +267,64 @@ func (vc *VC) emitAxioms() {
 
 // frameObligations: every heap variable changed by the body is either listed in
 // modifies (at the listed keys) or unchanged at every pre-allocated key.
-func (vc *VC) frameObligations(env *cenv, ex *exitInfo, k *FuncContract, prop string) {
+// computeFrame evaluates the modifies clause in the entry state.
+func (vc *VC) computeFrame(env *cenv, k *FuncContract) {
 	pre := env.at(vc.entry, nil)
 	pre.old = vc.entry
-	allowed := map[string][]string{} // var -> refs ("" = whole)
+	vc.frameAllowed = map[string][]string{}
 	for _, m := range k.Modifies {
 		for _, l := range pre.locsOf(m) {
-			allowed[l.Var] = append(allowed[l.Var], l.Ref)
+			vc.frameAllowed[l.Var] = append(vc.frameAllowed[l.Var], l.Ref)
 		}
 	}
-	alloc0 := vc.look(vc.entry, "$alloc")
+}
+
+// frameGoal: variable v in state st agrees with the entry state outside the
+// modifies clause (at every pre-allocated key). "" = nothing to show.
+func (vc *VC) frameGoal(v string, st *State) string {
+	if strings.HasPrefix(v, "$") {
+		return ""
+	}
+	cur := vc.look(st, v)
+	old := vc.look(vc.entry, v)
+	if cur == old {
+		return ""
+	}
+	refs, listed := vc.frameAllowed[v]
+	for _, r := range refs {
+		if r == "" {
+			return ""
+		}
+	}
+	sort_ := vc.hsort[v]
+	if !strings.HasPrefix(sort_, "(Array ") {
+		if listed {
+			return ""
+		}
+		return sEq(cur, old)
+	}
+	var excl []string
+	for _, r := range refs {
+		excl = append(excl, fmt.Sprintf("(not (= r %s))", r))
+	}
+	kin, _ := arraySorts(sort_)
+	cond := sAnd(excl...)
+	if kin == "Int" {
+		cond = sAnd(append([]string{fmt.Sprintf("(<= r %s)", vc.look(vc.entry, "$alloc"))}, excl...)...)
+	}
+	return fmt.Sprintf("(forall ((r %s)) (! (=> %s (= (select %s r) (select %s r))) :pattern ((select %s r))))", kin, cond, cur, old, cur)
+}
+
+func (vc *VC) frameObligations(env *cenv, ex *exitInfo, k *FuncContract, prop string) {
 	var names []string
 	for v := range vc.hsort {
 		names = append(names, v)
 	}
 	sort.Strings(names)
 	for _, v := range names {
-		if strings.HasPrefix(v, "$") {
+		goal := vc.frameGoal(v, ex.st)
+		if goal == "" {
 			continue
-		}
-		cur := vc.look(ex.st, v)
-		old := vc.look(vc.entry, v)
-		if cur == old {
-			continue
-		}
-		refs, listed := allowed[v]
-		whole := false
-		for _, r := range refs {
-			if r == "" {
-				whole = true
-			}
-		}
-		if whole {
-			continue
-		}
-		sort_ := vc.hsort[v]
-		var goal string
-		if !strings.HasPrefix(sort_, "(Array ") {
-			if listed {
-				continue
-			}
-			goal = sEq(cur, old)
-		} else {
-			var excl []string
-			for _, r := range refs {
-				excl = append(excl, fmt.Sprintf("(not (= r %s))", r))
-			}
-			kin, _ := arraySorts(sort_)
-			cond := sAnd(excl...)
-			if kin == "Int" {
-				cond = sAnd(append([]string{fmt.Sprintf("(<= r %s)", alloc0)}, excl...)...)
-			}
-			goal = fmt.Sprintf("(forall ((r %s)) (=> %s (= (select %s r) (select %s r))))", kin, cond, cur, old)
 		}
 		vc.oblige("frame", fmt.Sprintf("%s/%s/frame[%s]", prop, vc.qname, strings.TrimPrefix(v, "F!")), "modifies "+modSrc(k), ex.reach, goal, vc.fn.Pos(), true)
 	}
@@ -336,5 +370,229 @@ func VerifyLemma(P *Program, DB *ContractDB, lm *Lemma, prop string) *FuncReport
 	for a := range vc.Assumptions {
 		rep.Assumptions = append(rep.Assumptions, a)
 	}
+	return rep
+}
+
+// VerifyCover: syntactic completeness of a "fresh" predicate over a struct type.
+func VerifyCover(P *Program, DB *ContractDB, cd *CoverDecl, prop string) *FuncReport {
+	vc := NewVC(P, DB, nil, nil, prop)
+	vc.qname = "covers " + cd.Spec
+	rep := &FuncReport{Func: vc.qname}
+	sf := DB.Specs[cd.Spec]
+	env := vc.newEnv(&FuncContract{Name: vc.qname, Pkg: cd.Pkg}, vc.entry, vc.entry)
+	T := env.resolveType(cd.Type)
+	if sf == nil || T == nil {
+		rep.Errors = append(rep.Errors, fmt.Sprintf("covers %s %s: unknown spec function or type", cd.Spec, cd.Type))
+		return rep
+	}
+	st, ok := structOf(T)
+	if !ok || len(sf.Params) == 0 {
+		rep.Errors = append(rep.Errors, fmt.Sprintf("covers %s %s: not a struct / no parameter", cd.Spec, cd.Type))
+		return rep
+	}
+	mentioned := map[string]bool{}
+	var walk func(e Expr)
+	walk = func(e Expr) {
+		switch x := e.(type) {
+		case *ESel:
+			if id, ok := x.X.(*EIdent); ok && id.Name == sf.Params[0].Name {
+				mentioned[x.Name] = true
+			}
+			walk(x.X)
+		case *EBin:
+			walk(x.L)
+			walk(x.R)
+		case *EUn:
+			walk(x.X)
+		case *ECall:
+			for _, a := range x.Args {
+				walk(a)
+			}
+			// nested spec functions over the same object count too
+			if id, ok := x.Fn.(*EIdent); ok {
+				if inner := DB.Specs[id.Name]; inner != nil && inner.Body != nil && len(x.Args) > 0 {
+					if a, ok := x.Args[0].(*EIdent); ok && a.Name == sf.Params[0].Name && len(inner.Params) > 0 {
+						save := sf
+						sf = inner
+						walk(inner.Body)
+						sf = save
+					}
+				}
+			}
+		case *EIndex:
+			walk(x.X)
+			walk(x.I)
+		case *ECond:
+			walk(x.C)
+			walk(x.A)
+			walk(x.B)
+		case *EOld:
+			walk(x.X)
+		case *EQuant:
+			walk(x.Body)
+		}
+	}
+	if sf.Body != nil {
+		walk(sf.Body)
+	}
+	for i := 0; i < st.NumFields(); i++ {
+		f := st.Field(i).Name()
+		goal := "true"
+		if !mentioned[f] && !cd.Except[f] {
+			goal = "false"
+		}
+		o := vc.oblige("cover", fmt.Sprintf("%s/covers[%s %s]/unreset-field[%s]", prop, cd.Spec, cd.Type, f), fmt.Sprintf("spec fn %s constrains field %s of %s (or it is exempted with a reason)", cd.Spec, f, cd.Type), "true", goal, 0, true)
+		o.Pos = fmt.Sprintf("%s:%d", relRepo(cd.File), cd.Line)
+	}
+	rep.Obligations = vc.obls
+	return rep
+}
+
+// VerifyWrites enumerates every store to a field in the module: each must sit in
+// one of the listed functions, and the field's address must not escape.
+func VerifyWrites(P *Program, DB *ContractDB, wd *WritesDecl, prop string) *FuncReport {
+	vc := NewVC(P, DB, nil, nil, prop)
+	vc.qname = fmt.Sprintf("writes (*%s).%s", wd.Recv, wd.Field)
+	rep := &FuncReport{Func: vc.qname}
+	n := 0
+	found := false
+	for _, name := range sortedKeys(P.Funcs) {
+		fn := P.Funcs[name]
+		for _, b := range fn.Blocks {
+			for _, in := range b.Instrs {
+				fa, ok := in.(*ssa.FieldAddr)
+				if !ok {
+					continue
+				}
+				T := fa.X.Type().Underlying().(*types.Pointer).Elem()
+				st, _ := structOf(T)
+				if typeKey(T) != wd.Recv || st.Field(fa.Field).Name() != wd.Field {
+					continue
+				}
+				found = true
+				for _, ref := range *fa.Referrers() {
+					switch u := ref.(type) {
+					case *ssa.UnOp, *ssa.DebugRef:
+					case *ssa.Store:
+						if u.Addr != fa {
+							n++
+							vc.oblige("writes", fmt.Sprintf("%s/%s/escapes[%s#%d]", prop, vc.qname, name, n), "address of the field is stored", "true", "false", u.Pos(), true)
+							continue
+						}
+						n++
+						goal := "false"
+						if wd.Funcs[name] {
+							goal = "true"
+						}
+						vc.oblige("writes", fmt.Sprintf("%s/%s/store-in[%s#%d]", prop, vc.qname, name, n), "field assigned only in: "+strings.Join(sortedKeys(wd.Funcs), ", "), "true", goal, u.Pos(), true)
+					default:
+						n++
+						vc.oblige("writes", fmt.Sprintf("%s/%s/escapes[%s#%d]", prop, vc.qname, name, n), fmt.Sprintf("address of the field used by %T", ref), "true", "false", ref.Pos(), true)
+					}
+				}
+			}
+		}
+	}
+	if !found {
+		rep.Errors = append(rep.Errors, fmt.Sprintf("writes: field (*%s).%s not found in any function", wd.Recv, wd.Field))
+	}
+	rep.Obligations = vc.obls
+	return rep
+}
+
+// VerifyConstGlobal: the variable is stored exactly once, in its package's init,
+// with a freshly allocated object; its address is not taken elsewhere.
+func VerifyConstGlobal(P *Program, DB *ContractDB, name string, prop string) *FuncReport {
+	vc := NewVC(P, DB, nil, nil, prop)
+	vc.qname = "constglobal " + name
+	rep := &FuncReport{Func: vc.qname}
+	n := 0
+	stores := 0
+	for _, fname := range sortedKeys(P.Funcs) {
+		fn := P.Funcs[fname]
+		for _, b := range fn.Blocks {
+			for _, in := range b.Instrs {
+				for _, op := range in.Operands(nil) {
+					g, ok := (*op).(*ssa.Global)
+					if !ok || shortPkg(g.Pkg.Pkg.Path())+"."+g.Name() != name {
+						continue
+					}
+					n++
+					switch u := in.(type) {
+					case *ssa.UnOp, *ssa.DebugRef:
+					case *ssa.Store:
+						goal := "false"
+						if u.Addr == g && fn.Name() == "init" && fn.Pkg == g.Pkg {
+							switch ptrSource(u.Val).(type) {
+							case *ssa.Alloc, *ssa.MakeMap, *ssa.MakeChan, *ssa.MakeSlice:
+								goal = "true"
+								stores++
+							}
+						}
+						vc.oblige("writes", fmt.Sprintf("%s/%s/store[%s#%d]", prop, vc.qname, fname, n), "assigned only in init, with a fresh object", "true", goal, in.Pos(), true)
+					default:
+						vc.oblige("writes", fmt.Sprintf("%s/%s/escapes[%s#%d]", prop, vc.qname, fname, n), fmt.Sprintf("address used by %T", in), "true", "false", in.Pos(), true)
+					}
+				}
+			}
+		}
+	}
+	goal := "true"
+	if stores != 1 {
+		goal = "false"
+	}
+	vc.oblige("writes", fmt.Sprintf("%s/%s/assigned-once", prop, vc.qname), "exactly one initialising store", "true", goal, 0, true)
+	rep.Obligations = vc.obls
+	return rep
+}
+
+func ptrSource(v ssa.Value) ssa.Value {
+	for {
+		switch x := v.(type) {
+		case *ssa.ChangeType:
+			v = x.X
+		case *ssa.MakeInterface:
+			v = x.X
+		default:
+			return v
+		}
+	}
+}
+
+// VerifyZeroGlobal: the variable is never assigned (neither as a whole nor
+// through a field or element address), so it keeps the zero value it is declared with.
+func VerifyZeroGlobal(P *Program, DB *ContractDB, name string, prop string) *FuncReport {
+	vc := NewVC(P, DB, nil, nil, prop)
+	vc.qname = "zeroglobal " + name
+	rep := &FuncReport{Func: vc.qname}
+	n := 0
+	found := false
+	for _, fname := range sortedKeys(P.Funcs) {
+		fn := P.Funcs[fname]
+		for _, b := range fn.Blocks {
+			for _, in := range b.Instrs {
+				for _, op := range in.Operands(nil) {
+					g, ok := (*op).(*ssa.Global)
+					if !ok || shortPkg(g.Pkg.Pkg.Path())+"."+g.Name() != name {
+						continue
+					}
+					found = true
+					n++
+					switch in.(type) {
+					case *ssa.UnOp, *ssa.DebugRef:
+						continue
+					}
+					vc.oblige("writes", fmt.Sprintf("%s/%s/never-written[%s#%d]", prop, vc.qname, fname, n), fmt.Sprintf("the variable is only read (found %T)", in), "true", "false", in.Pos(), true)
+				}
+			}
+		}
+	}
+	goal := "true"
+	if !found {
+		goal = "false"
+	}
+	vc.oblige("writes", fmt.Sprintf("%s/%s/declared-and-read", prop, vc.qname), "the variable exists and is read", "true", goal, 0, true)
+	// it must also be declared without an initialiser other than the zero composite
+	rep.Obligations = vc.obls
 	return rep
 }
